@@ -565,7 +565,9 @@ impl Sirm {
     ) -> ControlResult<usize> {
         let si_info: u32 = self.read_register(device, sirm::SI_INFO)?;
         // Upper 8 bits specifies the exp of the alignment.
-        Ok(1 << (si_info >> 24_i32))
+        1_usize.checked_shl(si_info >> 24_i32).ok_or_else(|| {
+            ControlError::InvalidDevice("payload size alignment of the device is too large".into())
+        })
     }
 
     /// Enables stream.
